@@ -1,7 +1,7 @@
 ----------------------------- MODULE CsvBlocksMC -----------------------------
 (* Case enumeration for C47 (CSV half) and design check of module CsvBlocks.
 
-   fam = "text":  every table with Shapes[<<columns, max rows>>] whose cells are strings of Menu
+   fam = "text":  every table of a shape in Shapes (columns, max rows, menu prefix) whose cells are strings of Menu
      (digits, letters, a quoted comma, an embedded quote, the empty string, strings that begin
      like the header), written as a CSV text of at most MaxText bytes, with and without a final
      newline.  Exported: the text and its parse.  Invariants: parsing inverts writing, and
@@ -16,7 +16,7 @@
      typed values are recoverable.                                                        *)
 EXTENDS CsvBlocks, Json
 
-CONSTANTS Shapes,       \* set of <<number of columns, maximal number of rows>>
+CONSTANTS Shapes,       \* set of <<number of columns, maximal number of rows, how many entries of Menu are used>>
           Menu,         \* sequence of cell strings for the text family
           MaxText,      \* texts longer than this are not exported
           Frames,       \* sequence of typed frames (chosen by the harness)
@@ -26,8 +26,8 @@ VARIABLES ccase, cdone, out
 
 Names == << <<97>>, <<98>>, <<99>> >>        \* a b c
 
-Tables(nc, nr) == UNION {[1..r -> [1..nc -> 1..Len(Menu)]] : r \in 0..nr}
-TextSeeds == UNION {{[fam |-> "text", nc |-> sh[1], tab |-> tb, tn |-> tn] : tb \in Tables(sh[1], sh[2]), tn \in BOOLEAN}
+Tables(nc, nr, m) == UNION {[1..r -> [1..nc -> 1..m]] : r \in 0..nr}
+TextSeeds == UNION {{[fam |-> "text", nc |-> sh[1], tab |-> tb, tn |-> tn] : tb \in Tables(sh[1], sh[2], sh[3]), tn \in BOOLEAN}
                     : sh \in Shapes}
 FrameSeeds == {[fam |-> "fseed", f |-> f] : f \in DOMAIN Frames}
 
@@ -78,13 +78,14 @@ RoundTripStrings ==
 
 FilesBlocksizeInvariant ==
   FrameCase /\ ccase.single =>
-    \A bs \in 1..(Len(Files[1]) + 1) : ReadByBlocks(Files[1], bs) = ParseCsv(Files[1])
+    \A bs \in {1, 2, 5, 11, Len(Files[1]) + 1} : ReadByBlocks(Files[1], bs) = ParseCsv(Files[1])
 
 \* typed values are recoverable from what is written: per column type Render is injective on the
 \* value domain of the frames, and only NA renders as the empty field
 CellsOf(tag) == UNION {UNION {{fr.rows[k].cells[j] : j \in {j2 \in DOMAIN fr.types : fr.types[j2] = tag}} : k \in DOMAIN fr.rows}
                        : fr \in {Frames[f] : f \in DOMAIN Frames}}
-RenderInjective ==
+RenderInjective ==                     \* a constant-level fact: evaluated in one state only
+  (ccase.fam = "fseed" /\ ccase.f = 1) =>
   \A tag \in {1, 2, 3} : \A c1, c2 \in CellsOf(tag) :
      /\ Render(c1) = Render(c2) => c1 = c2
      /\ (Render(c1) = <<>>) = (c1[1] = 0)
